@@ -326,7 +326,7 @@ package kvql
 // The batch form builds the same keys, pair by pair.
 //@ func (a *AggregatePlan) batchGetAggrKeys(chunk []KVPair, ctx *ExecuteCtx) (ret []string, err error)
 //@   props C09 C03 C05
-//@   requires[C05] nokeys: ctx != nil && ctx.EnableCache && ctx.FieldChunkKeyCaches != nil ==> (forall q B :: !has(ctx.FieldChunkKeyCaches, q))
+//@   requires[C05] nokeys: ctx != nil && (ctx.EnableCache ==> (forall q B :: !has(ctx.FieldChunkKeyCaches, q))) && wfCtxB(ctx) && wfRefs()
 //@   ghost m Int
 //@   requires a != nil && (forall i Int :: 0 <= i && i < len(a.GroupByFields) ==> a.GroupByFields[i].Expr != nil)
 //@   assigns ctx.Hit, mapof(ctx.FieldCaches), mapof(ctx.FieldChunkKeyCaches), mapof(ctx.FieldChunkCaches)
@@ -335,6 +335,7 @@ package kvql
 //@   loop 0
 //@     invariant 0 <= i && i <= len(chunk) && len(ret) == len(chunk) && fresh(ret)
 //@   loop 1
+//@     invariant[C05] coh: cohChunk(ctx, chunk)
 //@     invariant len(ret) == len(chunk) && fresh(ret) && len(fields) == len(a.GroupByFields) && fresh(fields)
 //@     invariant forall j Int :: 0 <= j && j <= rangeindex && j < len(fields) ==> rowsOf(a.GroupByFields[j].Expr, chunk, fields[j])
 //@   loop 2
@@ -396,14 +397,16 @@ package kvql
 //@ func (a *AggregatePlan) prepareBatch(ctx *ExecuteCtx) (err error)
 //@   props C05 C13 C09
 //@   requires wfAggPlan(a) && wfCursor(a.ChildPlan) && !failed
-//@   requires[C05] wf: wfCtx(ctx) && wfRefs()
+//@   requires[C05] wf: wfCtx(ctx) && wfRefs() && ctx != nil && (ctx.EnableCache ==> (forall q B :: !has(ctx.FieldChunkKeyCaches, q))) && wfCtxB(ctx)
 //@   assigns a.prepared, a.aggrRows, allelems([]*AggrPlanField), mapof(a.aggrMap), pcur(a.ChildPlan), nops, failed, lastErr, allof(aggrCountFunc.counter), allof(aggrSumFunc.isum), allof(aggrSumFunc.fsum), allof(aggrSumFunc.isFloat), allof(aggrAvgFunc.isum), allof(aggrAvgFunc.fsum), allof(aggrAvgFunc.count), allof(aggrAvgFunc.isFloat), allof(aggrMinFunc.imin), allof(aggrMinFunc.fmin), allof(aggrMinFunc.isFloat), allof(aggrMinFunc.first), allof(aggrMaxFunc.imax), allof(aggrMaxFunc.fmax), allof(aggrMaxFunc.isFloat), allof(aggrMaxFunc.first), allof(aggrQuantileFunc.stream), allof(aggrJsonArrayAggFunc.items), allof(aggrGroupConcatFunc.items), ctx.Hit, mapof(ctx.FieldCaches), mapof(ctx.FieldChunkKeyCaches), mapof(ctx.FieldChunkCaches)
 //@   ensures[C13] readonly: nmut == old(nmut)
 //@   ensures[C13] surfaced: (failed ==> err == lastErr) && (err == nil ==> !failed)
 //@   ensures done: err == nil ==> a.prepared
 //@   loop 0
+//@     invariant[C05] nokeys: ctx != nil && (ctx.EnableCache ==> (forall q B :: !has(ctx.FieldChunkKeyCaches, q))) && wfCtxB(ctx)
 //@     invariant wfAggPlan(a) && wfCursor(a.ChildPlan) && !failed && nmut == old(nmut)
 //@   loop 1 (aggrKey)
+//@     invariant[C05] nokeys: ctx != nil && wfCtxB(ctx) && len(kvps) > 0 && (rangeindex >= 0 ==> (ctx.EnableCache ==> (forall q B :: !has(ctx.FieldChunkKeyCaches, q))))
 //@     invariant wfAggPlan(a) && wfCursor(a.ChildPlan) && !failed && nmut == old(nmut) && len(aggrKeys) == len(kvps)
 //@     atend assert[C09] dispatched: has(a.aggrMap, val(aggrKey)) && a.aggrMap[val(aggrKey)] == row
 //@     atend assert[C09] firstseen: !have ==> len(a.aggrRows) > 0 && a.aggrRows[len(a.aggrRows) - 1] == row
